@@ -30,8 +30,10 @@ func srvGenCfg(r *rand.Rand, tier, flavour string) *SrvGenCfg {
 		cfg.WViol, cfg.MaxSess, cfg.WClose = 250, 3, 60
 	case "malformed":
 		cfg.WMalform, cfg.WViol = 400, 60
+		cfg.WFlush, cfg.WGet, cfg.BadNI = 60, 60, true
 	case "flushget":
 		cfg.WFlush, cfg.WGet, cfg.WViol = 80, 120, 10
+		cfg.GetAfterOps = 250
 		p.Rich = true
 	}
 	return cfg
